@@ -167,6 +167,8 @@ def run(c):
     r = c.tlc("partset", name, module="MC_Codec", files={name: "SPECIFICATION Spec\nCONSTANTS\n  Wide = %s\nACTION_CONSTRAINT Dump\n" %
                                                           ("TRUE" if th else "FALSE")}, dump_to=dump, timeout=3000, tag="MC_Codec")
     must_hold(c, r, "MC_Codec")
+    g = c.gotest("partset", "TestDeriveInjective", timeout=1500, tag="transactions hash injective at every position (index boundaries)")
+    c.absorb(g)
     g = c.gotest("partset", "TestCodec", env=dict(CD_DUMP=dump), timeout=3000, tag="codec")
     c.absorb(g)
     os.remove(dump)
